@@ -128,3 +128,31 @@ def matrix_programs(h, w, max_stages, reduced):
         # two set commands in a row: each transmits the whole matrix once
         yield COLORS[mode] + (('act', 'set', (('matrix', S('m'), (N(0), None), None),)), SECOND[mode],
                               ('act', 'set', (('matrix', S('m'), None, (N(w - 1), None)), ('light', S('a')))))
+
+
+AND_POP = (('a', 'g', 'p'), ('s', 'g', 'p', 'strip', 4), ('m', 'h', 'q', 'matrix', 0, 2, 3),
+           ('n', 'h', 'q', 'matrix', 0, 3, 2))
+
+
+def and_list_programs(max_len):
+    """One `set` whose operand list joins matrix, block, zone, light and group operands with `and`,
+    in every order: each matrix operand transmits its light's whole matrix exactly once."""
+    def operands(mode):
+        return [
+            ('matrix', S('m'), (N(0), None), None, 'rc'),
+            ('matrix', S('m'), None, (N(1), N(2)), 'rc'),
+            ('matrix', S('n'), (N(1), None), (N(0), None), 'rc'),
+            ('block', S('m'), (('stage', (N(1), None), None),)),
+            ('block', S('n'), (('stage', (N(0), N(1)), None), SECOND[mode], ('stage', None, (N(1), None)))),
+            ('zone', S('s'), N(1), N(2)),
+            ('light', S('a')),
+            ('group', S('g')),
+        ]
+    for mode in ('logical', 'raw', 'rgb'):
+        ops = operands(mode)
+        for k in range(2, max_len + 1):
+            for combo in itertools.product(ops, repeat=k):
+                if not any(o[0] in ('matrix', 'block') for o in combo):
+                    continue
+                yield COLORS[mode] + (('act', 'set', tuple(combo)), ('print', N(1)),
+                                      ('act', 'set', (('matrix', S('n'), None, (N(0), None), 'rc'),)))
